@@ -199,17 +199,20 @@ static void do_get(Fut& f, int who) {
   VfAtomic a;
   vf_check(g_runs == 1, "get() returned although the functor has not run exactly once");
   vf_check(r == g_val, "get() returns the functor's result");
+  vf_check(f.is_ready(), "get() returned but is_ready() is false (returned before the result was published)");
   g_addr[who] = &r;
 #elif VF_RESULT == 1
   f.get();
   VfAtomic a;
   vf_check(g_runs == 1, "get() returned although the functor has not run exactly once");
+  vf_check(f.is_ready(), "get() returned but is_ready() is false (returned before the result was published)");
   (void)who;
 #else
   int32_t& r = f.get();
   VfAtomic a;
   vf_check(g_runs == 1, "get() returned although the functor has not run exactly once");
   vf_check(&r == &g_target, "get() returns the reference the functor returned");
+  vf_check(f.is_ready(), "get() returned but is_ready() is false (returned before the result was published)");
   g_addr[who] = &r;
 #endif
   ++g_gets;
